@@ -35,10 +35,111 @@ func StripConv(v ssa.Value) ssa.Value {
 			v = x.X
 		case *ssa.ChangeType:
 			v = x.X
+		case *ssa.Call:
+			// an accessor that hands back one of its arguments unchanged (a named type's `func (d digits) precision()
+			// int { return int(d) }`)
+			if k, ok := identityParam(x); ok {
+				v = x.Call.Args[k]
+				continue
+			}
+			return v
 		default:
 			return v
 		}
 	}
+}
+
+// identityParam: the call's static callee is a function of the caller's module that returns, on every path, its
+// parameter k (possibly converted) and nothing else; returns k.
+func identityParam(c *ssa.Call) (int, bool) {
+	callee := c.Call.StaticCallee()
+	if callee == nil || callee.Blocks == nil || c.Parent() == nil || !sameModule(callee, c.Parent()) || callee.Signature.Results().Len() != 1 {
+		return 0, false
+	}
+	k := -1
+	for _, b := range callee.Blocks {
+		ret, ok := b.Instrs[len(b.Instrs)-1].(*ssa.Return)
+		if !ok {
+			continue
+		}
+		r := ret.Results[0]
+		for {
+			if cv, isC := r.(*ssa.Convert); isC {
+				r = cv.X
+				continue
+			}
+			if ct, isC := r.(*ssa.ChangeType); isC {
+				r = ct.X
+				continue
+			}
+			break
+		}
+		prm, isP := r.(*ssa.Parameter)
+		if !isP {
+			return 0, false
+		}
+		idx := -1
+		for i, pp := range callee.Params {
+			if pp == prm {
+				idx = i
+			}
+		}
+		if idx < 0 || (k >= 0 && k != idx) || idx >= len(c.Call.Args) {
+			return 0, false
+		}
+		k = idx
+	}
+	return k, k >= 0
+}
+
+// predicateOf: the call's static callee is a one-block function of the caller's module that returns a comparison
+// of its parameters and constants (`func (d digits) trims() bool { return d > 0 }`); returns that comparison with
+// the call's arguments substituted.
+func predicateOf(c *ssa.Call) (Cmp, bool, bool) {
+	callee := c.Call.StaticCallee()
+	if callee == nil || len(callee.Blocks) != 1 || c.Parent() == nil || !sameModule(callee, c.Parent()) || callee.Signature.Results().Len() != 1 {
+		return Cmp{}, false, false
+	}
+	b := callee.Blocks[0]
+	ret, ok := b.Instrs[len(b.Instrs)-1].(*ssa.Return)
+	if !ok {
+		return Cmp{}, false, false
+	}
+	inner, neg, ok := AsCmp(ret.Results[0])
+	if !ok {
+		return Cmp{}, false, false
+	}
+	subst := func(v ssa.Value) (ssa.Value, bool) {
+		if _, isC := v.(*ssa.Const); isC {
+			return v, true
+		}
+		w := v
+		for {
+			if cv, isC := w.(*ssa.Convert); isC {
+				w = cv.X
+				continue
+			}
+			if ct, isC := w.(*ssa.ChangeType); isC {
+				w = ct.X
+				continue
+			}
+			break
+		}
+		if prm, isP := w.(*ssa.Parameter); isP {
+			for i, pp := range callee.Params {
+				if pp == prm && i < len(c.Call.Args) {
+					return c.Call.Args[i], true
+				}
+			}
+		}
+		return nil, false
+	}
+	x, okx := subst(inner.X)
+	y, oky := subst(inner.Y)
+	if !okx || !oky {
+		return Cmp{}, false, false
+	}
+	return Cmp{Op: inner.Op, X: x, Y: y}, neg, true
 }
 
 // ConstInt returns the integer value of a constant.
@@ -119,6 +220,14 @@ func AsCmp(cond ssa.Value) (c Cmp, negate bool, ok bool) {
 			switch x.Op {
 			case token.EQL, token.NEQ, token.LSS, token.LEQ, token.GTR, token.GEQ:
 				return Cmp{Op: x.Op, X: x.X, Y: x.Y}, negate, true
+			}
+			return Cmp{}, false, false
+		case *ssa.Call:
+			if c, neg2, ok := predicateOf(x); ok {
+				if neg2 {
+					negate = !negate
+				}
+				return c, negate, true
 			}
 			return Cmp{}, false, false
 		default:
